@@ -39,7 +39,8 @@ CMPF = ["U.cmpf.str", "U.cmpf.prefix", "U.cmpf.str_noaccent", "U.cmpf.prefix_noa
 STRL = ["U.str.nfkd_lazy", "B.str.nfkd_lazy", "U.str.split"]
 STORE = ["U.st.store", "U.st.load", "U.api.store", "U.api.load", "L.st.inv1", "L.st.inv2"]
 BD = ["U.bd.encode", "U.bd.decode"]
-NDEBUG = ["U.api.free@ndebug", "U.api.create@ndebug", "U.api.load@ndebug", "U.api.crypt@ndebug", "U.api.decode@ndebug", "U.api.decode_explicit@ndebug", "U.lang.phrase_decode@ndebug", "U.api.keygen@ndebug", "U.api.encode@ndebug"]
+NDEBUG_ALL = ["U.dep.inject@ndebug", "U.api.store@ndebug", "U.lang.search@ndebug"]
+NDEBUG = NDEBUG_ALL + ["U.api.free@ndebug", "U.api.create@ndebug", "U.api.load@ndebug", "U.api.crypt@ndebug", "U.api.decode@ndebug", "U.api.decode_explicit@ndebug", "U.lang.phrase_decode@ndebug", "U.api.keygen@ndebug", "U.api.encode@ndebug"]
 ND_COMMON = []
 
 def uniq(l):
@@ -49,7 +50,7 @@ def uniq(l):
             out.append(x)
     return out
 
-P("C01", level="proof", design_ref="7/C01", units=PACK + ["U.api.encode", "U.str.write", "U.str.write.full"] + DEC + PHR + ["U.lang.search", "U.str.split", "U.str.nfkd_lazy", "L.rt.index", "U.lang.get_comparer"],
+P("C01", level="proof", design_ref="7/C01", units=uniq(PACK + ["U.api.encode", "U.str.write", "U.str.write.full"] + DEC + PHR + ["U.lang.search", "U.str.split", "U.str.nfkd_lazy", "L.rt.index", "U.lang.get_comparer"] + ["U.api.decode@ndebug", "U.api.decode_explicit@ndebug", "U.api.encode@ndebug", "U.lang.phrase_decode@ndebug", "U.lang.search@ndebug"]),
   engines=["tables", "statics"],
   technique='CBMC 6.11 contracts: dfcc-enforced function contracts on pack/unpack with inverse lemmas; harness-enforced contracts (woven loop invariants, contract stubs) on encode, both decoders, both phrase decoders, tokeniser, lazy NFKD, search; round-trip lemma over those contracts; closed word-list facts by exhaustive native evaluation; goto symbol-table scan for hidden state',
   text="Round trip decomposed into contracts proved on the real functions: packing/unpacking against the published layout with both "
@@ -69,7 +70,7 @@ P("C02", level="proof", design_ref="7/C02", units=uniq(GF + ["L.gf.single", "L.g
        "over those contracts with every coefficient, position and value symbolic; the decoders' and polyseed_load's contracts show the "
        "checksum status is returned exactly when the evaluation is non-zero, before any allocation (decoders) and with no seed surviving.",
   note="'another word of the same list' = another coefficient by the closed fact T.distinct (all words pairwise distinct under the comparer).")
-P("C03", level="proof", design_ref="7/C03", units=["U.gf.pack", "U.gf.encode", "L.gf.unique", "U.api.encode", "U.str.write", "U.str.write.full", "U.api.create", "L.rt.index"], engines=["tables", "statics"],
+P("C03", level="proof", design_ref="7/C03", units=uniq(["U.gf.pack", "U.gf.encode", "L.gf.unique", "U.api.encode", "U.str.write", "U.str.write.full", "U.api.create", "L.rt.index"] + ["U.api.encode@ndebug", "U.api.create@ndebug"]), engines=["tables", "statics"],
   technique='CBMC 6.11 contracts: dfcc-enforced contract of polyseed_data_to_poly against the published layout written independently; harness-enforced sequence contract of polyseed_encode; write_str proved with a woven loop invariant; registry/golden facts exhaustive; goto symbol-table scan for hidden state (purity)',
   text="polyseed_data_to_poly is proved equal to the published layout written independently in spec.h (check word first, 10 secret bits MSB "
        "first + one feature/birthday bit per word); polyseed_encode is proved to use the stored check value as word 1, XOR the coin into word 2 "
@@ -77,7 +78,7 @@ P("C03", level="proof", design_ref="7/C03", units=["U.gf.pack", "U.gf.encode", "
        "to be a function of (seed, coin, language) only and to change nothing; per-language separator/compose flags and frozen lists are closed facts.",
   note="spec.h is the independent implementation; encode is proved over an abstract language object (table entry x -> one of 16 arbitrary strings); "
        "NFC itself is an injected dependency.")
-P("C04", level="proof", design_ref="7/C04", units=["U.api.keygen", "L.kdf.injective", "L.rt.index", "L.crypt.involution", "U.api.crypt", "U.gf.unpack", "U.st.load", "U.api.create"], engines=["statics"],
+P("C04", level="proof", design_ref="7/C04", units=uniq(["U.api.keygen", "L.kdf.injective", "L.rt.index", "L.crypt.involution", "U.api.crypt", "U.gf.unpack", "U.st.load", "U.api.create"] + ["U.api.keygen@ndebug"]), engines=["statics"],
   technique="CBMC 6.11 contracts: dfcc-enforced contract of polyseed_keygen with a ghost-recording PBKDF2 stub (every argument byte pinned, frame checked by assigns clauses); injectivity lemma; constructors' zero-padding contracts; goto symbol-table scan for hidden state",
   text="polyseed_keygen is proved against a contract that pins every KDF argument byte for byte (ghost-recording stub): "
        "one call, pw = 32-byte secret buffer, 32-byte salt per the published layout, 10000 iterations, caller's buffer and "
@@ -90,7 +91,7 @@ P("C05", level="proof", design_ref="7/C05", units=uniq(["L.gf.coin", "U.gf.mul2"
        "for all 2048x2048 pairs and all polynomials; encode applies the coin to word 2 only and after the check value, both decoders remove it "
        "before the check; L.rt.index: decode(encode(s, A), B) is OK iff A == B, ERR_CHECKSUM otherwise, and the phrases differ in word 2 only.",
   note="'differ in the second word only' at the level of strings uses the closed fact that distinct indices are distinct words.")
-P("C06", level="proof", design_ref="7/C06", units=uniq(["U.st.store", "U.st.load", "U.api.store", "U.api.load", "L.st.inv1", "L.st.inv2"] + FT + ["U.gf.pack", "U.gf.check", "U.api.free"]), engines=["statics"],
+P("C06", level="proof", design_ref="7/C06", units=uniq(uniq(["U.st.store", "U.st.load", "U.api.store", "U.api.load", "L.st.inv1", "L.st.inv2"] + FT + ["U.gf.pack", "U.gf.check", "U.api.free"]) + ["U.api.load@ndebug", "U.api.store@ndebug"]), engines=["statics"],
   technique='CBMC 6.11 contracts: dfcc-enforced contracts of polyseed_data_store / polyseed_data_load against a byte-level image specification (all 2^256 buffers), polyseed_load status precedence and allocator ledger, both inverse lemmas; feature-mask contracts',
   text="polyseed_data_store / polyseed_data_load proved against the byte-level image specification for all seeds and all 2^256 "
        "buffers; polyseed_load proved to return MEMORY, FORMAT, CHECKSUM, UNSUPPORTED, OK in that precedence, to hand out a "
@@ -119,33 +120,33 @@ P("C08", level="proof", design_ref="7/C08", units=uniq(CMPB + CMPU + ["U.lang.ge
   note="Quick tier: the accent-skipping comparers' functional rule is BOUNDED in the key length (63 bytes); element length is exact by the closed "
        "fact T.wordlen. 'accent' means any non-ASCII byte after NFKD (stated interpretation). The ghost arrays are fixed by axioms A1-A5 "
        "(harness/cmp_rule.c); A5 follows from A1 by induction over the position (base and step checked in L.cmpf.axioms).")
-P("C09", level="proof", design_ref="7/C09", units=uniq(PHR + DEC + ["U.str.split", "U.lang.search"] + ["U.str.nfkd_lazy", "U.gf.check", "U.lang.get_comparer"]), engines=["tables", "statics"],
+P("C09", level="proof", design_ref="7/C09", units=uniq(uniq(PHR + DEC + ["U.str.split", "U.lang.search"] + ["U.str.nfkd_lazy", "U.gf.check", "U.lang.get_comparer"]) + ["U.api.decode@ndebug", "U.api.decode_explicit@ndebug", "U.lang.phrase_decode@ndebug", "U.lang.search@ndebug"]), engines=["tables", "statics"],
   technique='CBMC 6.11 contracts: both phrase decoders over an arbitrary search-outcome matrix (lang_search replaced by its contract), both API decoders with contract stubs (status precedence), str_split against a functional tokeniser specification with woven loop invariants; closed facts on the tables',
   text="Both phrase decoders are proved over every search-outcome matrix (OK iff exactly one language recognises all 16 tokens, then the same "
        "indices and language as explicit decoding; MULT_LANG iff two or more, regardless of checksums; LANG iff none); both API decoders are "
        "proved to follow the precedence word count, language, checksum, memory, unsupported; str_split is proved against a functional tokeniser "
        "specification for strings of any length (empty tokens kept, one trailing space ignored, 17th token reported).",
   note="Unbounded str_split proof uses woven loop invariants with bounded quantifiers over the 576-byte buffer; empty token never matches a word by T.token_safe.")
-P("C10", level="proof", design_ref="7/C10", units=uniq(FT + ["U.api.create", "U.api.load", "U.api.get_feature", "U.api.is_encrypted", "L.pack.inv1", "L.st.inv1", "U.api.crypt", "L.rt.index"] + DEC + ["U.bd.encode", "U.gf.pack", "U.gf.unpack", "U.st.store", "U.st.load", "U.api.store"]), engines=["statics"],
+P("C10", level="proof", design_ref="7/C10", units=uniq(uniq(FT + ["U.api.create", "U.api.load", "U.api.get_feature", "U.api.is_encrypted", "L.pack.inv1", "L.st.inv1", "U.api.crypt", "L.rt.index"] + DEC + ["U.bd.encode", "U.gf.pack", "U.gf.unpack", "U.st.store", "U.st.load", "U.api.store"]) + ["U.api.create@ndebug", "U.api.load@ndebug", "U.api.decode@ndebug", "U.api.decode_explicit@ndebug"]), engines=["statics"],
   technique='CBMC 6.11 contracts: dfcc-enforced contracts of the feature functions (enable from an arbitrary previous mask), of create / load and the harness-enforced decoder contracts with a symbolic reserved mask; packing / storage / crypt lemmas carry all five bits; birthday clamp contract',
   text="polyseed_enable_features proved from an arbitrary previous mask (most recent call wins, popcount returned); "
        "features_supported, make/get_features, is_encrypted proved; create, both decoders and load proved to refuse exactly the reserved bits "
        "(create before allocating; the others after the checksum, freeing the block); feature bits carried by the phrase/storage/crypt lemmas.",
   note="The reserved mask is symbolic in every entry-point proof (all eight enabled masks).")
-P("C11", level="proof", design_ref="7/C11", units=["U.bd.encode", "U.bd.decode", "U.dep.stdlib_time", "U.api.get_birthday", "U.api.create", "L.pack.inv1", "L.st.inv1", "U.api.crypt", "L.rt.index", "U.gf.pack", "U.gf.unpack", "U.st.store", "U.st.load", "U.api.load"] + DEC,
+P("C11", level="proof", design_ref="7/C11", units=uniq(["U.bd.encode", "U.bd.decode", "U.dep.stdlib_time", "U.api.get_birthday", "U.api.create", "L.pack.inv1", "L.st.inv1", "U.api.crypt", "L.rt.index", "U.gf.pack", "U.gf.unpack", "U.st.store", "U.st.load", "U.api.load"] + DEC + ["U.api.create@ndebug"]),
   technique='CBMC 6.11 contracts: birthday_encode / birthday_decode against a division-free specification over all 2^64 clock values (dfcc), polyseed_create with a ghost-recording clock stub, the libc fallback clock stdlib_time over all time_t values; packing / storage / crypt contracts carry the 10 bits',
   text="birthday_encode proved against a division-free specification for all 2^64 clock values; birthday_decode and "
        "polyseed_get_birthday proved = epoch + k*step without overflow; polyseed_create proved to stamp the seed from exactly "
        "one call of the injected clock; packing, storage and crypt contracts carry all 10 bits unchanged.",
   note="The clock is an injected dependency (assumed arbitrary uint64).")
-P("C12", level="proof", design_ref="7/C12", units=uniq(["U.api.crypt", "L.crypt.involution", "L.crypt.wrongpw", "U.str.nfkd_lazy", "U.api.is_encrypted", "U.ft.isenc"] + ["U.st.store", "U.st.load", "L.st.inv1", "U.gf.pack", "U.gf.unpack", "U.gf.encode", "L.pack.inv1", "U.api.store", "U.api.load"]), engines=["statics"],
+P("C12", level="proof", design_ref="7/C12", units=uniq(uniq(["U.api.crypt", "L.crypt.involution", "L.crypt.wrongpw", "U.str.nfkd_lazy", "U.api.is_encrypted", "U.ft.isenc"] + ["U.st.store", "U.st.load", "L.st.inv1", "U.gf.pack", "U.gf.unpack", "U.gf.encode", "L.pack.inv1", "U.api.store", "U.api.load"]) + ["U.api.crypt@ndebug"]), engines=["statics"],
   technique="CBMC 6.11 contracts: harness-enforced contract of polyseed_crypt for every 32-byte mask with a ghost-recording PBKDF2 stub; involution and wrong-password lemmas; lazy NFKD contract (woven loop invariant); storage / packing contracts for 'usable like any seed'",
   text="polyseed_crypt proved for every 32-byte mask: one KDF call with pw = the normalised password without terminator, the 16-byte mask salt, "
        "10000 iterations, 32 bytes; 19 bytes XORed with the top two bits of the 19th dropped, flag toggled, birthday/user bits unchanged, check "
        "value recomputed (canonical for every mask); involution and wrong-password lemmas over that postcondition.",
   note="'NFKD(password)' is the injected dependency's result (utf8_nfkd_lazy proved to call it iff a non-ASCII byte occurs in the first "
        "POLYSEED_STR_SIZE-1 bytes); longer ASCII passwords are truncated by the library -- outside the claimed domain, reported as an observation.")
-P("C13", level="proof", design_ref="7/C13", units=uniq(API_D + DEC + ["U.api.crypt", "U.api.encode", "U.ft.enable", "U.dep.inject", "U.gf.mul2"] + PACK + ["L.st.inv1", "L.rt.index", "L.crypt.involution"] + GF + FT + BD + ["U.st.store", "U.st.load", "L.st.inv2", "U.dep.stdlib_time"]),
+P("C13", level="proof", design_ref="7/C13", units=uniq(uniq(API_D + DEC + ["U.api.crypt", "U.api.encode", "U.ft.enable", "U.dep.inject", "U.gf.mul2"] + PACK + ["L.st.inv1", "L.rt.index", "L.crypt.involution"] + GF + FT + BD + ["U.st.store", "U.st.load", "L.st.inv2", "U.dep.stdlib_time"]) + NDEBUG),
   engines=["statics"],
   technique='CBMC 6.11 contracts: representation invariant established / preserved by every operation (dfcc and harness-enforced contracts), frames by assigns clauses and snapshots; goto symbol-table and goto-program scan: the only mutable statics and their only writers; induction over histories is glue',
   text="Data refinement step by step: every constructor establishes the representation invariant (canonical) from a block with arbitrary "
@@ -153,14 +154,14 @@ P("C13", level="proof", design_ref="7/C13", units=uniq(API_D + DEC + ["U.api.cry
        "only mutable statics are the four known ones and each is written only by its owner (symbol-table + goto-program scan).",
   note="Induction over call histories is the standard, unmechanised glue; each step is machine-checked.",
   not_decided=["the induction over arbitrary finite histories itself"])
-P("C14", level="proof", design_ref="7/C14", units=uniq(["U.str.nfkd_lazy", "B.str.nfkd_lazy", "U.str.split", "U.lang.search", "U.st.load", "U.api.load", "U.api.crypt"] + CMPU + PHR + DEC + CMPB + ["U.gf.check", "U.gf.unpack"]), engines=["statics"],
+P("C14", level="proof", design_ref="7/C14", units=uniq(uniq(["U.str.nfkd_lazy", "B.str.nfkd_lazy", "U.str.split", "U.lang.search", "U.st.load", "U.api.load", "U.api.crypt"] + CMPU + PHR + DEC + CMPB + ["U.gf.check", "U.gf.unpack"]) + NDEBUG), engines=["statics"],
   technique='CBMC 6.11 contracts with bounds / pointer / overflow checks and library assert()s enabled on every unit; woven inductive invariants with decreases clauses close every string loop (memory safety and termination for any length); bounded shadow units without woven text; NDEBUG variants',
   text="Every unit runs with bounds, pointer, pointer-overflow, signed-overflow, shift and division checks and with the library's own assert()s "
        "enabled; all string loops (lazy NFKD, tokeniser, four comparers, linear search) are closed by inductive invariants with decreases "
        "clauses, so memory safety and termination hold for strings of any length; decoders/crypt/load return only documented statuses, do not "
        "write their input, and leave nothing allocated on failure.",
   note="Caller string objects are symbolic up to 1200 bytes (nfkd_lazy) / 576 bytes (comparer keys); bsearch trusted; dependency stubs assumed.")
-P("C15", level="proof", design_ref="7/C15", units=["U.api.create", "U.api.free", "U.api.load", "U.st.load", "U.gf.unpack"] + DEC,
+P("C15", level="proof", design_ref="7/C15", units=uniq(["U.api.create", "U.api.free", "U.api.load", "U.st.load", "U.gf.unpack"] + DEC + ["U.api.create@ndebug", "U.api.load@ndebug", "U.api.free@ndebug", "U.api.decode@ndebug", "U.api.decode_explicit@ndebug"]),
   technique='CBMC 6.11 contracts: allocator-ledger stubs (ghost state) in the dfcc-enforced contracts of create / load / free and the harness-enforced decoder contracts: at most one allocation, freed exactly once on failure after wiping, NULL handled, arbitrary block contents',
   text="Allocator ledger contracts: create, load and both decoders call the injected allocator at most once with sizeof(seed); every failure "
        "path returns the block through the injected free exactly once (after wiping) and leaves nothing live; NULL from the "
@@ -175,14 +176,14 @@ P("C16", level="proof", design_ref="7/C16", units=["U.api.free", "U.api.crypt", 
   note="Source-level only: compiler-made copies (spills, registers), dead stack contents and other optimisation levels are outside what a "
        "source-level contract can express.",
   not_decided=["residue in registers / dead stack frames of the compiled binary; behaviour at other optimisation levels"])
-P("C17", level="proof", design_ref="7/C17", units=["U.str.write", "U.str.write.full", "U.api.encode", "U.str.nfkd_lazy"], engines=["tables", "statics"],
+P("C17", level="proof", design_ref="7/C17", units=uniq(["U.str.write", "U.str.write.full", "U.api.encode", "U.str.nfkd_lazy"] + ["U.api.encode@ndebug"]), engines=["tables", "statics"],
   technique='exhaustive native evaluation of T.fits per language (NFKD and NFC forms, per-position maxima) + CBMC contracts: write_str advance contract (woven loop invariant), polyseed_encode cursor arithmetic and length assertion under fits, lazy NFKD bound; goto symbol-table scan for shared buffers',
   text="T.fits[lang]: for each registered language the sum of per-position maximal word lengths (admissible indices) plus separators is "
        "below POLYSEED_STR_SIZE in both the NFKD and the NFC form (exhaustive); write_str proved to advance by exactly strlen and to write only "
        "its slice; polyseed_encode proved, under fits, to keep every intermediate cursor and the terminator inside the buffer, to satisfy its own "
        "length assertion and to return the length of the output; decoders/crypt normalise without overrun.",
   note="NFC length bound uses utf8proc and the no-composition-across-separator fact (T.unicode).")
-P("C18", level="proof", design_ref="7/C18", units=["U.api.create", "U.dep.inject", "U.dep.stdlib_time", "U.api.keygen", "U.api.free"], engines=["calls", "statics"],
+P("C18", level="proof", design_ref="7/C18", units=uniq(["U.api.create", "U.dep.inject", "U.dep.stdlib_time", "U.api.keygen", "U.api.free"] + ["U.dep.inject@ndebug", "U.api.create@ndebug", "U.api.keygen@ndebug", "U.api.free@ndebug"]), engines=["calls", "statics"],
   technique='CBMC 6.11 contracts: polyseed_create with ghost-recording randomness / clock stubs and every other dependency requires(false); polyseed_inject from an arbitrary previous table; stdlib_time; goto-program scan of direct call targets and address-taken externals',
   text="polyseed_create proved to take exactly 19 bytes from the injected random source into the secret (top two bits dropped), to call the "
        "injected clock exactly once and nothing else; polyseed_inject proved, from an arbitrary previous table, to copy every entry and to fall "
@@ -194,7 +195,7 @@ P("C19", level="proof", design_ref="7/C19", both_chars=True, units=uniq(["U.str.
        "phrase decoders) is verified under -fsigned-char and -funsigned-char against the same byte-value specification; all closed word-list facts (sortedness, search, acceptance rule) are "
        "evaluated with both settings and must agree.",
   note="All other functions do not operate on plain char values (byte arrays are uint8_t); goto-cc honours -funsigned-char (measured).")
-P("C20", level="other", design_ref="7/C20", units=API_D + DEC + ["U.api.crypt", "U.api.encode", "U.dep.inject", "U.ft.enable"], engines=["statics", "calls"],
+P("C20", level="other", design_ref="7/C20", units=uniq(API_D + DEC + ["U.api.crypt", "U.api.encode", "U.dep.inject", "U.ft.enable"] + ["U.dep.inject@ndebug"]), engines=["statics", "calls"],
   technique='sufficient condition only: frames of every API function (dfcc assigns clauses / snapshots), goto symbol-table scan (no mutable static-lifetime object besides the four known ones, each written only by its owner), goto-program scan of call targets (no libc function with hidden state); race-freedom itself is a written meta-argument',
   text="Sequential contracts cannot explore schedules; what is proved is the sufficient condition: every API function other than "
        "inject/enable_features writes only objects reachable from its arguments, its locals and blocks it allocated (frames), and the only "
